@@ -32,7 +32,15 @@ RULE = ("trajectory cases: 1..200 beads, 1..6 frames, coordinates of both "
         "shuffled atom order), box bounds with xlo=0 (judged) and xlo!=0 "
         "(x/xu judged, xs observed only); gro +/- velocity columns and "
         "3/9-number box lines; free-format xyz with element names; 80-column "
-        "pdb with ATOM/HETATM/CRYST1/MODEL; DL_POLY CONFIG/HISTORY with "
+        "pdb with ATOM/HETATM/CRYST1/MODEL; objects used more than once "
+        "(family reuse: one writer object for three files incl. the first "
+        "frames again, byte-identical; append mode; one reader object for "
+        "three files, NextFrame after the end, atom-count change, FirstFrame "
+        "twice; one Table loaded twice / resized / saved after modification; "
+        "table text variants; imcio readers called repeatedly; frames whose "
+        "box type (gro) and velocity/force presence (gro, dump) change inside "
+        "one file; csg_map chains with --first-frame/--nframes on both legs "
+        "for every format pair); DL_POLY CONFIG/HISTORY with "
         "levcfg 0/1/2 and imcon 1/2/3 (expected values are computed from the "
         "printed tokens, comparison to 64 ulp). "
         "Oracle: the original in-memory data within half a unit of the "
@@ -70,7 +78,7 @@ STORES_VEL = ("gro", "dump", "dlph")
 STORES_FRC = ("dump", "dlph")
 
 
-def _gen_chain(rng, a, b, tric=None, wide=True):
+def _gen_chain(rng, a, b, tric=None, wide=True, window=False):
     nmol, nb = rng.randint(1, 4), rng.randint(1, 5)
     n = nmol * nb
     case = {"a": a, "b": b, "nmol": nmol, "nb": nb, "n": n,
@@ -82,7 +90,15 @@ def _gen_chain(rng, a, b, tric=None, wide=True):
             # 'narrow' cases stay inside, 'wide' ones are a separate key
             "wide": wide}
     span = 3.0 if wide else 0.4
-    for f in range(rng.randint(1, 3)):
+    nfr = rng.randint(4, 6) if window else rng.randint(1, 3)
+    if window:
+        # leg 1: --first-frame F1 --nframes N1 ; leg 2: --first-frame F2 --nframes N2
+        f1 = rng.randint(1, 3)
+        n1 = rng.randint(2, nfr - f1 + 1)
+        f2 = rng.randint(1, 2)
+        n2 = rng.randint(1, max(1, n1 - f2 + 1))
+        case["window"] = [f1, n1, f2, n2]
+    for f in range(nfr):
         L = [round(rng.uniform(1.0, 20.0), 3) for _ in range(3)]
         box = [[L[0], 0, 0], [0, L[1], 0], [0, 0, L[2]]]
         if case["tric"]:
@@ -236,7 +252,8 @@ def _run_chain(c, wdir, env):
     (_write_gro if a == "gro" else _write_dump)(os.path.join(wdir, "a0." + a), c)
     mapexe = vf.exe("asan", "csg_map")
     viol, judged, procs = [], [], []
-    pre = "chain/%s-%s/" % (a, b)
+    win = c.get("window")
+    pre = "chain/%s-%s/" % (a, b) + ("window/" if win else "")
     keep_vel = c["vel"] and b in STORES_VEL
     keep_frc = c["frc"] and b in STORES_FRC and (b != "dlph" or c["vel"])
 
@@ -244,6 +261,9 @@ def _run_chain(c, wdir, env):
         cmd = [mapexe, "--top", "topol.xml", "--trj", src, "--out", dst,
                "--no-map"] + (["--vel"] if vel else []) + \
             (["--force"] if frc else [])
+        if win:
+            k = 0 if name == "leg1" else 2
+            cmd += ["--first-frame", str(win[k]), "--nframes", str(win[k + 1])]
         res = vf.run_proc(cmd, env=env, timeout=300, cwd=wdir)
         procs.append((res, "csg_map %s %s->%s" % (name, src, dst),
                       {"cmd": " ".join(cmd[1:])}))
@@ -257,6 +277,9 @@ def _run_chain(c, wdir, env):
             a, b, " --vel" if c["vel"] else "", " --force" if c["frc"] else "")
         w["cmd2"] = "csg_map --top topol.xml --trj b1.%s --out a2.%s --no-map%s%s" % (
             b, a, " --vel" if keep_vel else "", " --force" if keep_frc else "")
+        if win:
+            w["cmd1"] += " --first-frame %d --nframes %d" % (win[0], win[1])
+            w["cmd2"] += " --first-frame %d --nframes %d" % (win[2], win[3])
         w.update(extra)
         return w
 
@@ -312,12 +335,20 @@ def _run_chain(c, wdir, env):
            "vel": (HALF[a]["vel"] + hb.get("vel", 0)) * ua * 1.001,
            "box": (HALF[a]["box"] + hb.get("box", 0)) * ua * 1.001,
            "frc": (HALF["dump"]["frc"] + hb.get("frc", 0)) * fa * 1.01}
-    ok = len(got) == len(c["frames"])
+    expframes = c["frames"]
+    if win:
+        # frames (1-based) F1 .. F1+N1-1 survive leg 1, of those F2 .. F2+N2-1
+        s1 = expframes[win[0] - 1:win[0] - 1 + win[1]]
+        expframes = s1[win[2] - 1:win[2] - 1 + win[3]]
+    ok = len(got) == len(expframes)
     judged.append((pre + "frame-count", ok))
     if not ok:
         viol.append((pre + "frame-count", "number of frames differs after "
-                     "a->b->a", witness({"frames_out": len(got)})))
-    for fi, (E, G) in enumerate(zip(c["frames"], got)):
+                     "a->b->a" + (" with --first-frame/--nframes windows "
+                                  "%s" % win if win else ""),
+                     witness({"frames_out": len(got),
+                              "frames_expected": len(expframes)})))
+    for fi, (E, G) in enumerate(zip(expframes, got)):
         okn = len(G["pos"]) == c["n"]
         judged.append((pre + "bead-count", okn))
         if not okn:
@@ -401,9 +432,14 @@ def run(chk):
             # reader variants on harness-written files in the official
             # layouts (what VOTCA's own writers never produce)
             "dumpread": vf.tier_n(t, (2, 150), (8, 1200)),
+            # objects used more than once: one writer for several files,
+            # append mode, one reader for several files, NextFrame after the
+            # end, FirstFrame twice
+            "reuse": vf.tier_n(t, (3, 150), (12, 900)),
             "readers": vf.tier_n(t, (1, 240), (4, 2000))}
     n_dlpoly = vf.tier_n(t, 160, 2400)
     n_chain = vf.tier_n(t, 30, 400)
+    n_window = vf.tier_n(t, 20, 300)   # chains with frame windows
     jobs, labels = [], []
     for fam, (shards, n) in plan.items():
         for s in range(shards):
@@ -438,6 +474,12 @@ def run(chk):
         # a=gro: alternate orthorhombic / triclinic boxes
         chains.append(_gen_chain(rng, a, b, (i // len(pairs)) % 2 == 0,
                                  wide=(b != "xyz" or (i // len(pairs)) % 3 == 2)))
+    for i in range(n_window):
+        a, b = pairs[i % len(pairs)]
+        # rectangular boxes, narrow coordinates: nothing but the frame
+        # selection differs from the plain chains
+        chains.append(_gen_chain(rng, a, b, False, wide=(b != "xyz"),
+                                 window=True))
     for i, c in enumerate(chains):
         jobs.append(lambda i=i, c=c: ("c", c, _run_chain(
             c, os.path.join(work, "chain_%d" % i), env)))
@@ -462,7 +504,8 @@ def run(chk):
                     ok = False
                     if not res.timed_out:
                         chk.sanitizer["reports"] += 1
-            fam = "chain/%s-%s" % (c["a"], c["b"])
+            fam = "chain/%s-%s" % (c["a"], c["b"]) + (
+                "/window" if c.get("window") else "")
             chk.count(fam, 1, nontrivial=1)
             for cn, good in judged:
                 chk.counters["J:" + cn] = chk.counters.get("J:" + cn, 0) + 1
@@ -514,6 +557,14 @@ def run(chk):
         "x), gro files with other than 3 decimals (the reader uses fixed "
         "8-character columns), tab separated xyz atom lines, DL_POLY imcon 0 "
         "files without cell lines are not generated",
+        "object reuse: the DL_POLY writer is excluded (one writer per "
+        "process, documented); reuse cases avoid the recorded format limits "
+        "(dump/pdb: rectangular boxes, xyz: narrow coordinates) so that only "
+        "state leaking between uses can fire; FirstFrame called twice is "
+        "only required not to leave data that is no frame of the file "
+        "(stream readers do not rewind; outcomes are counted); a gro frame "
+        "without velocity columns following one with them keeps the stale "
+        "bead velocities (counted, not judged)",
         "LAMMPS dump forces: either calorie (41.84 / 41.868 kJ/mol/nm per "
         "kcal/mol/A) is accepted here; the disagreement is C20's known "
         "finding"]
